@@ -7,6 +7,12 @@ PROP = dict(
         dict(name="sized", pkg="./compactindexsized", run="^TestVerif_C04$",
              files={"compactindexsized/zz_verif_c04_test.go": "harness/compactindexsized/c04_test.go"},
              timeout=900, timeout_thorough=2400),
+        dict(name="legacy8", pkg="./deprecated/compactindex", run="^TestVerif_C04$",
+             files={"deprecated/compactindex/zz_verif_c04_test.go": "harness/deprecated/compactindex/c04_test.go"},
+             timeout=600, timeout_thorough=1800),
+        dict(name="legacy36", pkg="./deprecated/compactindex36", run="^TestVerif_C04$",
+             files={"deprecated/compactindex36/zz_verif_c04_test.go": "harness/deprecated/compactindex36/c04_test.go"},
+             timeout=600, timeout_thorough=1800),
     ],
     technique="Coq proofs over a byte-level model of the three compact-index formats (builder with spill stream, mining, eytzinger layout, header/metadata codecs; reader) for every hash function, + cross-read correspondence: Go-sealed files are read by the Gallina reader with a transcribed xxhash64/EntryHash64/BucketHash, and the Go builder's outcome class is compared with the repaired model builder's",
     level_text="Theorems (Coq, no axioms) for every hash function, bucket function below the bucket count, declared count, value size, metadata, key/value list and insertion order: every inserted key is found with its value (compactindexsized; legacy 36-byte and legacy 8-byte formats), Open returns the header written, any permutation of the inserts gives the byte-identical outcome, duplicate keys / buckets colliding in every domain / unsupported sizes give an error and never a panic or a file, a returned value always belongs to a stored key with the same bucket and 24-bit hash (exact false-positive set), and two refutation lemmas showing the pinned builder (no range checks) violates the property (value size 253 panics, a 65536-byte key is silently recorded as the empty key). Tie: cross-read of Go-sealed files by the Gallina reader (present and absent keys, header, metadata) and builder outcome classes, on seeded random and directed inputs; large sets, all insertion orders of <= 6 keys, seal-twice byte equality and error paths are checked on the Go code by the property oracle.",
